@@ -4,6 +4,11 @@
 
 package generic
 
+// C07, package-wide: a function that evaluates Lisp forms itself forwards the
+// return-from / go marker an evaluation hands back: nothing more is evaluated
+// and the marker is the function's result.
+//@ every-function generic forward-exits
+
 // ---------------------------------------------------------------------------
 // C10: the outcome of a generic call depends only on the methods defined at
 // that moment. The dispatch cache and the single-method fast path are pure
